@@ -14,6 +14,9 @@ Scenario line (space separated):
                                     response head until 2 following operations have been started
       E<c>                          c filler objects (60 KB each, own URLs) are fetched one after the other: eviction pressure
       P<k>                          PURGE
+      V<k>                          reader with Cache-Control: max-age=0: Squid revalidates its copy; the origin answers 304 with an extra
+                                    header field when the validator names the current version (the stored header is updated in place:
+                                    shared-memory and rock entries get a new header prefix spliced onto the old body slices)
 Observation: one token per operation, comma separated
       U=<status>:<ver>:<C|I>[!what]       what the reloading client got (C = complete message, I = cut short)
       R=<status>:<ver>:<C|I>:<hit|miss>[!what]
@@ -61,6 +64,12 @@ def parse_line(line):
             if int(m.group(1)) >= nk:
                 return None
             ops.append(("R", int(m.group(1)), int(m.group(2))))
+            continue
+        m = re.fullmatch(r"V(\d+)", o)
+        if m:
+            if int(m.group(1)) >= nk:
+                return None
+            ops.append(("R", int(m.group(1)), 0, 1))     # a reader that forces a revalidation (the origin answers 304 + a new header)
             continue
         m = re.fullmatch(r"E(\d+)", o)
         if m:
@@ -120,6 +129,11 @@ class Scenario:
                 self.cur[k] = 1
                 self.vers[(k, 1)] = (100 + 7 * k, 11 + k, 0, rig.date_now(86400), rig.date_now(-864000))
             ver = self.cur[k]
+            inm = rig.hget(req["hdrs"], "if-none-match")
+            if inm is not None and inm.strip() == '"%s-k%d-v%d"' % (self.sid, k, ver) and (k, ver) not in self.plan:
+                self.nupd = getattr(self, "nupd", 0) + 1
+                hd304 = [h for h in self.obj(k, ver)[1] if h[0] in ("ETag", "X-Ver", "Cache-Control", "Expires")]
+                return [("send", rig.simple_response(304, b"", hd304 + [("X-Upd", "u%d-" % self.nupd + "x" * (20 + 13 * (self.nupd % 7)))], cl=False))]
             mode, held, go = self.plan.pop((k, ver), (0, None, None))      # only the reload that introduced the version is paced
         b, hd = self.obj(k, ver)
         if mode == 0:
@@ -179,7 +193,8 @@ class Scenario:
         return "U=%d:%s:%s%s" % (r["status"], v, "C" if r["complete"] else "I", bad)
 
     def op_read(self, i, op, held, go):
-        _, k, slow = op
+        k, slow = op[1], op[2]
+        reval = len(op) > 3 and op[3]
         port = self.h.squids[self.sc["store"]].port
         hostport = "127.0.0.1:%d" % self.h.origin.port
         try:
@@ -188,7 +203,7 @@ class Scenario:
                 s.setsockopt(socket.SOL_SOCKET, socket.SO_RCVBUF, 4096)
             s.settimeout(40 * rig.VERIF_SLOW)
             s.connect(("127.0.0.1", port))
-            s.sendall(("GET %s HTTP/1.1\r\nHost: %s\r\nConnection: close\r\n\r\n" % (self.url(k), hostport)).encode())
+            s.sendall(("GET %s HTTP/1.1\r\nHost: %s\r\n%sConnection: close\r\n\r\n" % (self.url(k), hostport, "Cache-Control: max-age=0\r\n" if reval else "")).encode())
             head, rest = rig.read_head(s, b"", 40)
         finally:
             self.h.origin.event(held).set()
